@@ -399,7 +399,7 @@ Lemma step_budget fc fb tid_of c o : tinv c ->
   forall i, count_invokes i ob + inv_budget c' i <= inv_budget c i /\
             count_writes i ob + wr_budget c' i <= wr_budget c i.
 Proof.
-  intros Hinv. destruct o as [id raw h|raw|d|now|now|r|s| |now|d|fid]; cbn [c_step].
+  intros Hinv. destruct o as [id raw h|raw|d|now|now|r|s| |now|d|fid|sid]; cbn [c_step].
   - (* Start *)
     unfold c_start, c_start_gen. destruct (c_closed c).
     { split; [exact Hinv|]. split; [reflexivity|]. intros i. destruct (no_counts_ret CClientClosed i) as [-> ->]. split; lia. }
@@ -543,6 +543,13 @@ Proof.
     destruct (budget_ext c (c_foreign c fid) eq_refl eq_refl eq_refl) as [Hi Hb].
     split; [apply Hi, Hinv|]. split; [reflexivity|]. intros i. destruct (Hb i) as [-> ->].
     unfold count_invokes, count_writes. cbn [filter]. rewrite lenN_nil. split; lia.
+  - (* the application stops a transaction through the shared agent *)
+    unfold c_app_stop. destruct (a_step _ _) as [A' [r evs]].
+    destruct (budget_ext c (upd_A c A') eq_refl eq_refl eq_refl) as [Hi Hb].
+    pose proof (feed_budget fc fb evs (kind_evk []) (upd_A c A') (Hi Hinv)) as Hf.
+    destruct (feed _ _ _ _ _) as [c2 ob]. destruct Hf as (I2 & F2 & B2).
+    split; [exact I2|]. split; [unfold frame in F2; injection F2 as _ _ Hm _ _ _ _ _; exact Hm|].
+    intros i. destruct (B2 i), (Hb i). split; lia.
 Qed.
 
 (* ------------------------------------------------------------------ over every history *)
